@@ -174,8 +174,29 @@ def const_field_of_agg(body, prov_unused, op, adt_suffix, field):
 
 
 def return_values(body):
-    """All assignments to _0 in live blocks: list of (bb, stmt)."""
-    return assignments_to(body, 0)
+    """The statements that produce the function's value: assignments to _0 in live blocks; when
+    _0 is merely moved out of a temporary that the arms of a tail `match` / `if` assign
+    (`_0 = move _t` with several assignments to `_t`), the assignments to `_t` are returned
+    instead (with their own blocks), so that early-`return` style and tail-expression style look
+    the same to the rules. A temporary that is also written by a call is left alone."""
+    out = []
+    for (bb, st) in assignments_to(body, 0):
+        out.extend(_expand_ret(body, bb, st, 0))
+    return out
+
+
+def _expand_ret(body, bb, st, depth):
+    rv = st["rv"]
+    if rv["k"] == "use" and depth < 4:
+        p = op_place(rv["op"])
+        if p is not None and not p["p"] and not (1 <= p["l"] <= body.arg_count):
+            defs = body.defs.get(p["l"], [])
+            if defs and all(k == "assign" for (_, k, _) in defs) and body.local_name(p["l"]) is None:
+                out = []
+                for (dbb, _, d) in defs:
+                    out.extend(_expand_ret(body, dbb, d, depth + 1))
+                return out
+    return [(bb, st)]
 
 
 def describe_ret(body, st):
